@@ -654,6 +654,10 @@ func (t *TNC) cancelled(sc *scriptCtx) bool {
 		return sc.gen != t.scriptGen
 	case "session":
 		return sc.conn == nil || !sc.conn.Up
+	case "disc", "abort":
+		// what is left of an old link's teardown is not said once the host has
+		// started the next connection
+		return sc.conn != nil && !sc.conn.Up && (t.cur != sc.conn || t.dialing)
 	}
 	return false
 }
@@ -736,6 +740,10 @@ func (t *TNC) fireGroup(sc *scriptCtx, i int) {
 // sendDamaged sends `left` damaged copies of f and then the good one; the
 // script continues after the good copy.
 func (t *TNC) sendDamaged(sc *scriptCtx, i, next int, e Ev, f outFrame, left int) {
+	if t.cancelled(sc) || (f.rec.Kind == "arq" && !t.connUp(f.rec.Conn)) {
+		t.pendingBad = nil
+		return // the link went away while the frame was being repeated
+	}
 	if left <= 0 {
 		t.pendingBad = nil
 		t.enqueue([]outFrame{f})
@@ -759,6 +767,10 @@ func (t *TNC) sendDamaged(sc *scriptCtx, i, next int, e Ev, f outFrame, left int
 	t.pendingBad = func() { t.sim.At(0, again) }
 	d := time.Duration(clamp(e.BadDelayUs, 1, 3_600_000_000)) * time.Microsecond
 	t.sim.At(d, again)
+}
+
+func (t *TNC) connUp(id int) bool {
+	return id >= 1 && id <= len(t.Conns) && t.Conns[id-1].Up
 }
 
 // evFrames turns one event into frames (and records). Caller holds mu.
@@ -815,6 +827,18 @@ func (t *TNC) evFrames(sc *scriptCtx, e Ev) []outFrame {
 		}
 		rec := t.newEmission(t.dataStream(), "dframe", sc.name)
 		rec.Payload, rec.Malformed = b, MalformedEv(e)
+		if len(b) >= 3 && string(b[:3]) == "ARQ" {
+			// spelled out byte by byte it is still an ARQ frame
+			c := sc.conn
+			if c == nil {
+				c = t.cur
+			}
+			if c == nil || !c.Up {
+				t.Emissions = t.Emissions[:len(t.Emissions)-1]
+				return nil
+			}
+			rec.Kind, rec.Payload, rec.Conn = "arq", b[3:], c.ID
+		}
 		return []outFrame{cuts(outFrame{stream: rec.Stream, bytes: t.frameData("", b), rec: rec})}
 	case "raw":
 		b := decodeHex(e.Hex)
@@ -1174,7 +1198,11 @@ func (t *TNC) execCommand(f HostFrame) {
 				t.cur.EndCause = "host-abort"
 			}
 			t.scriptGen++
-			after = func() { t.emitLines("abort", "DISCONNECTED", "NEWSTATE DISC") }
+			conn, remote := t.cur, t.remote
+			// as a script, so that in TCP mode the data socket drains first (see fireGroup)
+			after = func() {
+				t.startScript("abort", []Ev{{Kind: "ctl", Arg: "DISCONNECTED"}, {Kind: "ctl", Arg: "NEWSTATE DISC", Batch: true}}, conn, remote)
+			}
 		}
 	case "SENDID", "CLOSE", "PURGEBUFFER", "TWOTONETEST", "BREAK":
 		replies = append(replies, word)
